@@ -176,6 +176,21 @@ pub fn generate(g: &mut Gen, thorough: bool) {
     for kind in ["default", "new", "plain", "plain-new"] {
         g.push(format!("S_C18C\t{kind}"), "oracle-operators-under-macro-names", true);
     }
+    // unknown names give errors wherever they stand: in a step that is never run (omitted in both directions), behind
+    // modifiers, in the body of a macro
+    for def in [
+        "addone | _garbage omit_fwd omit_inv | addone", "addone | no:such omit_fwd omit_inv", "omit_fwd omit_inv nosuchop | addone", "addone | nosuchop omit_inv", "addone < nosuchop omit_inv",
+        "nosuchop", "no:such", "addone | helmert x=1 omit_fwd omit_inv | nosuchop inv", "addone | utm omit_fwd omit_inv",
+    ] {
+        g.push(format!("S_C16E\t{}", esc(def).replace("\\u{7c}", "|")), "oracle-unknown-names-are-errors", true);
+    }
+    for kind in ["default", "plain"] {
+        // a step omitted in both directions is a step all the same: listed, with its parameters
+        let calls = vec![format!("O|{}", esc("addone | helmert x=3 omit_fwd omit_inv | addone inv")), "T|0".to_string(), "P|0|0".to_string(), "P|0|1".to_string(), "P|0|2".to_string(), format!("A|0|F|{data}"), format!("A|0|I|{data}")];
+        let line = format!("{}\t{}", kind, calls.join("\t"));
+        g.push(format!("HIST\t{line}"), "hist-doubly-omitted-step", true);
+        g.push(format!("S_C18\t{line}"), "oracle-hist-doubly-omitted-step", true);
+    }
     // a handle stays valid however many operations the context has instantiated since
     for kind in ["default", "plain", "plain-new"] {
         for many in [70usize, 130, 300] {
